@@ -104,11 +104,13 @@ PROPS = {
         'required_theorems': ['C01_insertion_preserves_wf', 'C01_quantize_tensor_preserves_wf',
                               'C01_transform_graph_preserves_wellformedness',
                               'C01_generated_instructions_are_exact',
-                              'C01_pipeline_returns_wellformed_subgraphs_or_raises'],
+                              'C01_pipeline_returns_wellformed_subgraphs_or_raises',
+                              'C01_transform_graph_preserves_wf_model',
+                              'C01_pipeline_returns_wf_model_or_raises'],
         'rule': GRAPH_RULE,
         'trusted_base': COMMON_TB + GRAPH_TB,
         'assumptions': GRAPH_ASSUME + [
-            'composition IS a theorem: the performer\'s global invariant (op-id maps resolve every pending producer reference exactly) is preserved by every step, the instruction generator only emits exact instructions, hence the whole modelled pipeline maps well-formed subgraphs to well-formed subgraphs or raises; NOT yet theorems: opcode/buffer indices in range, unique tensor names, signature entries in range (oracle + correspondence E/E2)',
+            'composition IS a theorem: the performer\'s global invariant (op-id maps resolve every pending producer reference exactly) is preserved by every step, the instruction generator only emits exact instructions, hence the whole modelled pipeline maps well-formed subgraphs to well-formed subgraphs or raises; opcode / buffer index ranges and signature entries are part of the theorem (wf_model); NOT a theorem: unique tensor names (fresh-name search; oracle + correspondence E/E2)',
             'interpreter allocate/invoke is runtime behaviour: validated by execution in a forked child on every returned model quantized with real statistics'],
     },
     'C02': {
